@@ -35,6 +35,10 @@ def check(ctx, report):
     speccheck.run(ctx, report, 'C07', 'ssh.json', MODULES, reviewed)
     padding(ctx, report)
     mpint_sign(ctx, report)
+    software_versions(ctx, report)
+    report.rule('C07.R8', 'name-lists: split at commas, order kept, unknown names preserved one by one')
+    from ..textlists import string_array_table
+    string_array_table(ctx, report, 'C07.R8', 'ssh')
     banner(ctx, report)
     report.floor('C07.R1', 80, 'layout comparisons')
 
@@ -266,3 +270,59 @@ def banner(ctx, report):
         report.add('C07.R6', p.construct + '@limit', 'the 255 byte limit of RFC 4253 4.2 is not enforced')
     if "!= 'SSH'" not in src:
         report.add('C07.R6', p.construct + '@prefix', 'the identification string is not required to start with SSH')
+
+
+# ---- R7: software version strings -------------------------------------------------------------------------------------
+
+def software_versions(ctx, report):
+    """SshSoftwareVersionParsedBase._parse evaluated (sa.miniexec over the ParserText model of sa/textmodel.py) for every
+    concrete vendor class: the vendor is everything up to the first separator, the version is everything after it - a
+    version that contains the separator again (OpenSSH_for_Windows_8.1) is recovered whole and the whole token is consumed"""
+    import ast
+    from ..miniexec import Evaluator, Raised, Unsupported, class_call_hook
+    from ..textmodel import TextParser
+    rule = 'C07.R7'
+    report.rule(rule, 'software version token: vendor up to the first separator, version = the whole rest')
+    base = ctx.model.try_cls('SshSoftwareVersionParsedBase')
+    if base is None or '_parse' not in base.methods:
+        report.error('%s: SshSoftwareVersionParsedBase._parse vanished' % rule)
+        return
+    f = base.methods['_parse']
+    report.touch(f)
+    it = ctx.interp
+    for c in ctx.model.all_subclasses(base):
+        if c.abstract_methods:
+            continue
+        vendor = it.const_call(c, '_get_vendor')
+        sep = it.const_call(c, '_get_version_separator')
+        if not isinstance(vendor, str) or not (sep is None or isinstance(sep, str)):
+            report.undecided.append('%s: vendor / separator not constant' % c.name)
+            continue
+        versions = [None] if sep is None else [None, '8.1', '8.1p1 Debian-1', 'for%sWindows%s8.1' % (sep, sep), '2012.55%svendor1' % sep]
+        for version in versions:
+            report.count(rule)
+            token = vendor if version is None else vendor + sep + version
+            built = {}
+
+            def extra(n, ev, built=built):
+                d = ast.unparse(n.func)
+                if d == 'ParserText':
+                    return TextParser(ev.ev(n.args[0]))
+                if d == 'cls' and 'self' not in ev.env:
+                    built['version'] = ev.ev(n.args[0]) if n.args else None
+                    return ('object', built['version'])
+                return NotImplemented
+            try:
+                got = Evaluator({'parsable': token.encode('ascii')}, class_call_hook(c, extra, ctx.model), None).function(f.node)
+            except Raised as e:
+                report.add(rule, '%s@token[%s]' % (c.construct, 'plain' if version is None or sep not in (version or '') else 'separator-in-version'),
+                           'the conformant token %r is refused (%s)' % (token, e.what[:50]))
+                continue
+            except Unsupported as e:
+                report.add(rule, f.construct + '@tabulation', 'the software version parser left the subset the tabulation understands: %s' % e)
+                return
+            consumed = got[1] if isinstance(got, tuple) and len(got) == 2 else None
+            if built.get('version') != version or consumed != len(token):
+                report.add(rule, '%s@token[%s]' % (c.construct, 'plain' if version is None or sep not in version else 'separator-in-version'),
+                           'the token %r is parsed as version %r consuming %s of %d bytes; the composer would have written it for version %r' % (
+                               token, built.get('version'), consumed, len(token), version))
